@@ -178,3 +178,102 @@ func VerifH_C15_AcrossReconnect() {
 		c1.Close()
 	})
 }
+
+// C15 (d): requests outstanding at the same time on ONE connection, one of them re-issued through its
+// retry handle.  The first request fails without the connection ending (its acknowledgement does not
+// arrive before the caller's context ends, or the transport rejects that one write), a second request is
+// written and left unacknowledged, then the first is re-issued on the same client.  A re-issued PUBLISH
+// is the same request and keeps its identifier; a re-issued SUBSCRIBE / UNSUBSCRIBE is a new packet whose
+// identifier must not be one that is still in use; nothing shares an identifier with the second request.
+func VerifH_C15_RetrySameConn() {
+	conn := newVconn("c0")
+	cli := &BaseClient{Transport: conn}
+	first := true
+	failNext := false
+	conn.onWrite = func(c *vconn, p []byte) error {
+		if first {
+			first = false
+			c.rbuf = append(c.rbuf, 0x20, 2, 0, 0)
+			c.nInjected += 4
+			c.signalLocked = true
+			return nil
+		}
+		if failNext {
+			failNext = false
+			return errVconnWrite // a transient failure of this one write; the connection stays up
+		}
+		return nil
+	}
+	_, err := cli.Connect(context.Background(), "cid")
+	verifAssert(err == nil, "C15.harness_connect")
+	cli.idLast = verifNondetU32("idlast")
+	kind1 := verifChoice("first", 4)  // publish QoS 1, publish QoS 2, subscribe, unsubscribe
+	kind2 := verifChoice("second", 3) // publish QoS 1, subscribe, unsubscribe
+	writeFails := verifChoice("failure", 2) == 1
+	call := func(ctx context.Context, k int, mark string) error {
+		switch k {
+		case 0:
+			return cli.Publish(ctx, &Message{Topic: "t" + mark, QoS: QoS1, Payload: []byte{1}})
+		case 1:
+			return cli.Publish(ctx, &Message{Topic: "t" + mark, QoS: QoS2, Payload: []byte{1}})
+		case 2:
+			_, err := cli.Subscribe(ctx, Subscription{Topic: "s" + mark, QoS: QoS1})
+			return err
+		}
+		return cli.Unsubscribe(ctx, "s"+mark)
+	}
+	cctx, cancel := contextCancelled()
+	defer cancel()
+	verifLock()
+	failNext = writeFails
+	verifUnlock()
+	err1 := call(cctx, kind1, "1")
+	re, ok := err1.(ErrorWithRetry)
+	verifAssert(ok, "C15.harness_retry_handle")
+	if !ok {
+		return
+	}
+	k2 := []int{0, 2, 3}[kind2]
+	_ = call(cctx, k2, "2")
+	_ = re.Retry(cctx, cli)
+	verifReach("reissued")
+	var ids []uint16
+	var marks []byte
+	for _, w := range conn.okWrites() {
+		d := refDecode(w)
+		if !d.ok {
+			continue
+		}
+		switch d.typ {
+		case 3:
+			ids = append(ids, d.id)
+			marks = append(marks, d.topic[1])
+		case 8, 10:
+			ids = append(ids, d.id)
+			marks = append(marks, d.filters[0][1])
+		}
+	}
+	// packets on the wire: [first request (unless its write failed)], second request, re-issued first request
+	want := 3
+	if writeFails {
+		want = 2
+	}
+	verifAssert(len(ids) == want, "C15.harness_packets")
+	if len(ids) != want {
+		return
+	}
+	second, reissued := ids[want-2], ids[want-1]
+	verifAssert(verifAnd(second != 0, reissued != 0), "C15.id_nonzero")
+	verifAssert(second != reissued, "C15.outstanding_ids_differ_on_one_connection")
+	if !writeFails {
+		orig := ids[0]
+		verifAssert(orig != second, "C15.outstanding_ids_differ_on_one_connection")
+		if kind1 <= 1 {
+			verifAssert(reissued == orig, "C15.reissued_publish_keeps_its_identifier")
+		} else {
+			// the first SUBSCRIBE / UNSUBSCRIBE was written and never acknowledged: its identifier is still in use
+			verifAssert(reissued != orig, "C15.reissued_request_gets_unused_identifier")
+		}
+	}
+	_ = marks
+}
